@@ -320,16 +320,7 @@ class Parser:
         tok = stream.next_token()
         expr = self.parse_filter_expression(stream)
 
-        if isinstance(expr, FunctionExtension):
-            func = self.env.function_extensions.get(expr.name)
-            if (
-                func
-                and isinstance(func, FilterFunction)
-                and func.return_type == ExpressionType.VALUE
-            ):
-                raise JSONPathTypeError(
-                    f"result of {expr.name}() must be compared", token=tok
-                )
+        self._raise_for_uncompared_function(expr, tok)
 
         if isinstance(expr, FilterExpressionLiteral):
             raise JSONPathSyntaxError(
@@ -405,6 +396,7 @@ class Parser:
                 token=right.token,
             )
 
+        self._raise_for_uncompared_function(right, tok)
         return PrefixExpression(tok, operator="!", right=right)
 
     def parse_infix_expression(
@@ -442,6 +434,8 @@ class Parser:
                 token=right.token,
             )
 
+        self._raise_for_uncompared_function(left, tok)
+        self._raise_for_uncompared_function(right, tok)
         return LogicalExpression(tok, left, operator, right)
 
     def parse_grouped_expression(self, stream: TokenStream) -> Expression:
@@ -683,6 +677,19 @@ class Parser:
 
     def _is_low_surrogate(self, codepoint: int) -> bool:
         return codepoint >= 0xDC00 and codepoint <= 0xDFFF
+
+    def _raise_for_uncompared_function(self, expr: Expression, token: Token) -> None:
+        """Raise if _expr_, used as a test expression, is a ValueType function."""
+        if isinstance(expr, FunctionExtension):
+            func = self.env.function_extensions.get(expr.name)
+            if (
+                func
+                and isinstance(func, FilterFunction)
+                and func.return_type == ExpressionType.VALUE
+            ):
+                raise JSONPathTypeError(
+                    f"result of {expr.name}() must be compared", token=token
+                )
 
     def _raise_for_non_comparable_function(
         self, expr: Expression, token: Token
